@@ -12,7 +12,6 @@ import (
 	"pgregory.net/rapid"
 
 	"verif/harness/evid"
-	"verif/harness/obs"
 	"verif/harness/progs"
 	"verif/harness/ref"
 )
@@ -31,29 +30,6 @@ type LibCase struct {
 	Opt        bool        `json:"optimizer"`
 }
 
-var libTemplates = []string{
-	// a low pass filter built from constants, applied to the signal in the argument
-	`let lp=createLowPass("f",p->p.t,p->p.s,0.5); data.iirApply(lp).mapReduce(0,(sum,p)->sum+p.f)`,
-	`let lp=createLowPass("f",p->p.t,p->p.s,2); data.iirApply(lp).map(p->p.f).reduce((a,b)->a*0.5+b)`,
-	// an interpolation built from a constant table, used for every item of the argument
-	`let ip=[{x:0,y:1},{x:1,y:3},{x:2,y:2},{x:4,y:8}].createInterpolation(p->p.x,p->p.y); data.map(p->ip(p.t)).reduce((a,b)->a+b)`,
-	// a regression over a constant table
-	`let r=[{x:0,y:1},{x:1,y:3},{x:2,y:2},{x:4,y:8}].linearReg(p->p.x,p->p.y); data.map(p->r.a*p.t+r.b).reduce((a,b)->a+b)`,
-	// a constant filter map written in the language
-	`let f={initial: p->{t:p.t,f:p.s}, filter: (p0,p1,l)->{t:p1.t,f:l.f+(p1.s-l.f)*(p1.t-p0.t)}}; data.iirApply(f).mapReduce(0,(sum,p)->sum+p.f)`,
-}
-
-func libArg(steps []float64) value.Value {
-	l := &ref.List{}
-	t := 0.0
-	for i, dt := range steps {
-		t += dt
-		s := float64((i*7+len(steps)*3)%11) - 5
-		l.Items = append(l.Items, &ref.Map{Keys: []string{"t", "s"}, Vals: []ref.Value{ref.Float(t), ref.Float(s)}})
-	}
-	return obs.ToImpl(l)
-}
-
 func libMarker(c LibCase) {
 	b, err := json.Marshal(evid.Failure{Property: prop, Test: "libclosure", Message: "the race detector reported a data race while this case was running", Case: c})
 	if err == nil {
@@ -62,7 +38,7 @@ func libMarker(c LibCase) {
 }
 
 func checkLib(c LibCase) string {
-	text := libTemplates[c.Template%len(libTemplates)]
+	text := progs.LibTemplates[c.Template%len(progs.LibTemplates)]
 	// isolated: a fresh function per argument, one evaluation
 	want := make([]progs.Outcome, len(c.Data))
 	for i, d := range c.Data {
@@ -70,7 +46,7 @@ func checkLib(c LibCase) string {
 		if err != nil {
 			return "Generate rejected " + text + ": " + err.Error()
 		}
-		want[i] = progs.Observe(f.Eval(libArg(d)))
+		want[i] = progs.Observe(f.Eval(progs.LibArg(d)))
 	}
 	old := runtime.GOMAXPROCS(0)
 	defer runtime.GOMAXPROCS(old)
@@ -84,7 +60,7 @@ func checkLib(c LibCase) string {
 		got := make([]progs.Outcome, n)
 		args := make([]value.Value, n)
 		for i := range args {
-			args[i] = libArg(c.Data[i%len(c.Data)])
+			args[i] = progs.LibArg(c.Data[i%len(c.Data)])
 		}
 		var ready, done sync.WaitGroup
 		release := make(chan struct{})
@@ -117,7 +93,7 @@ func checkLib(c LibCase) string {
 func TestPropLibraryClosures(t *testing.T) {
 	defer evid.R.Flush()
 	rapid.Check(t, func(t *rapid.T) {
-		c := LibCase{Template: rapid.IntRange(0, len(libTemplates)-1).Draw(t, "template"), Goroutines: rapid.IntRange(2, 12).Draw(t, "goroutines"),
+		c := LibCase{Template: rapid.IntRange(0, len(progs.LibTemplates)-1).Draw(t, "template"), Goroutines: rapid.IntRange(2, 12).Draw(t, "goroutines"),
 			Procs: rapid.SampledFrom([]int{1, 2, 4, 16, 16}).Draw(t, "procs"), Opt: rapid.IntRange(0, 4).Draw(t, "opt") != 0}
 		nd := rapid.IntRange(1, 4).Draw(t, "arguments")
 		for i := 0; i < nd; i++ {
@@ -125,7 +101,7 @@ func TestPropLibraryClosures(t *testing.T) {
 			steps := make([]float64, n)
 			for j := range steps {
 				// irregular sampling: the intervals differ within a signal and between the signals
-				steps[j] = rapid.SampledFrom([]float64{0.125, 0.25, 0.5, 1, 0.375, 2, 0.0625}).Draw(t, "dt")
+				steps[j] = rapid.SampledFrom(progs.LibSteps).Draw(t, "dt")
 			}
 			c.Data = append(c.Data, steps)
 		}
@@ -140,7 +116,7 @@ func TestPropLibraryClosures(t *testing.T) {
 			cls = append(cls, "equal_arguments")
 		}
 		evid.R.Case(true, fmt.Sprint("lib", c), func() any {
-			return map[string]any{"program": libTemplates[c.Template], "goroutines": c.Goroutines, "gomaxprocs": c.Procs, "arguments": nd}
+			return map[string]any{"program": progs.LibTemplates[c.Template], "goroutines": c.Goroutines, "gomaxprocs": c.Procs, "arguments": nd}
 		}, cls...)
 		evid.R.ClassN("concurrent_evaluations", int64(c.Goroutines*9))
 	})
